@@ -30,6 +30,10 @@ REQUIRED_COUNTERS = ['cells_checked', 'bad_cells_expected']
 TYPES = {
     'integer': ({'type': 'integer'}, ['1', '-5', '007', ' 4', '0', 'x', '1.5', '', 'NaN', '1e3']),
     'number_comma': ({'type': 'number', 'decimalChar': ','}, ['1,5', '3', '-0,25', 'x', '1,2,3', '', '1e3']),
+    # options whose value is falsy are options all the same
+    'number_not_bare': ({'type': 'number', 'bareNumber': False}, ['$1.5', '3 kg', '1.5', 'x', '', '-2 EUR']),
+    'integer_not_bare': ({'type': 'integer', 'bareNumber': False}, ['12 %', 'EUR 7', '5', 'x', '']),
+    'boolean_no_false_values': ({'type': 'boolean', 'trueValues': ['yes'], 'falseValues': []}, ['yes', 'no', 'false', 'true', '']),
     'boolean_tv': ({'type': 'boolean', 'trueValues': ['yes', 'Y'], 'falseValues': ['no']},
                    ['yes', 'Y', 'no', 'true', 'false', '1', '']),
     'date_fmt': ({'type': 'date', 'format': '%d/%m/%Y'}, ['31/12/2020', '01/02/1999', '2020-12-31', '32/01/2020', '']),
